@@ -92,6 +92,59 @@ def judge_apply(ap, res, mon, text, part):
             "refer to the calibration that was added" % worst)
 
 
+def judge_resolve(g, res, text, part):
+    """the same unknown handle solved several times on different grids"""
+    cnt = part["counters"]
+
+    def bad(what, desc):
+        part["violations"].append(dict(
+            key="%s:%s:vnacal_get_parameter_value" % (PROP, what),
+            desc="unknown reflect handle solved by %s / %s (%s, %s): %s" % (
+                g.shape[2], g.shape[3], g.shape[0], g.shape[1], desc),
+            script=text))
+    for c in g.checks:
+        sv, ev = res.ev(c["solve"]), res.ev(c["line"])
+        if sv is None or ev is None or "ret" not in ev:
+            continue
+        if sv.get("ret") != 0:
+            cnt["resolve_solve_failed"] = cnt.get("resolve_solve_failed", 0) + 1
+            continue
+        cnt["resolve_values_checked"] = cnt.get("resolve_values_checked", 0) + 1
+        worst = 0.0
+        for got, want in zip(ev["ret"], c["truth"]):
+            z = complex(got[0], got[1])
+            worst = max(worst, abs(z - want) if np.isfinite(z)
+                        else float("inf"))
+        if len(ev["ret"]) != len(c["truth"]):
+            worst = float("inf")
+        rel = worst / (1e-12 * (1 + c["kappa"]))
+        part["maxima"]["resolve_err_over_tol"] = max(
+            part["maxima"].get("resolve_err_over_tol", 0.0),
+            rel if np.isfinite(rel) else 1e300)
+        if not rel <= 1.0:
+            bad("resolved-unknown-value",
+                "%s (solve at line %d): vnacal_get_parameter_value on that "
+                "grid returns %s, solved (true) values are %s" % (
+                    c["what"], c["solve"], ev["ret"],
+                    [complex(x) for x in c["truth"]]))
+    for c in g.outside:
+        ev = res.ev(c["line"])
+        if ev is None or "ret" not in ev:
+            continue
+        if c["solve"] is not None:
+            sv = res.ev(c["solve"])
+            if sv is None or sv.get("ret") != 0:
+                continue
+        cnt["resolve_outside_checked"] = cnt.get(
+            "resolve_outside_checked", 0) + 1
+        okv = [x for x in ev["ret"] if not (isinstance(x[0], float) and
+                                            np.isinf(x[0]))]
+        if okv:
+            bad("resolved-unknown-out-of-range-accepted",
+                "%s: frequencies far outside the grid of the latest solve "
+                "evaluate to %s" % (c["what"], ev["ret"]))
+
+
 def work(chunk_id, payload):
     seed, ncases, nops, binary, workroot = payload
     part = dict(evaluations=0, counters={}, maxima={}, distinct=set(),
@@ -106,9 +159,41 @@ def work(chunk_id, payload):
         cases.append((cid, text))
         cases.append(("b%d_%d" % (chunk_id, k), g.twin()))
         gens[cid] = g
+    rgens = {}
+    for k in range(max(2, ncases // 4)):
+        rng = np.random.default_rng([seed, chunk_id, k, 1617])
+        rg = gen_handles.ResolveGen(rng)
+        text = rg.generate()
+        if text is not None:
+            cases.append(("r%d_%d" % (chunk_id, k), text))
+            rgens["r%d_%d" % (chunk_id, k)] = rg
     wd = os.path.join(workroot, "w%d" % chunk_id)
     results = R.run_cases(binary, cases, wd, timeout=1800, watchdog=60)
     texts = dict(cases)
+    for cid, rg in rgens.items():
+        res, text = results[cid], texts[cid]
+        v, inc = R.standard_violations(res, text, PROP)
+        part["violations"] += v
+        part["inconclusive"] += inc
+        if res.status in ("driver_error", "notrun"):
+            part["harness_errors"].append("%s: %s %s" % (cid, res.status,
+                                                         res.detail))
+            continue
+        if res.status != "ok":
+            continue
+        part["evaluations"] += 1
+        mon = calmodel.Monitor(strict_props=True)
+        for what, fn, detail in mon.feed(text, res.events):
+            part["violations"].append(dict(
+                key="%s:%s:%s" % (PROP, what, fn),
+                desc="%s: %s" % (fn, detail), script=text))
+        part["distinct"].add(("resolve",) + rg.shape)
+        judge_resolve(rg, res, text, part)
+        if chunk_id == 1 and len(part["samples"]) < 1:
+            part["samples"].append(dict(
+                kind="unknown handle solved repeatedly", shape=rg.shape,
+                script=[l[:120] for l in text.split("\n")
+                        if l and not l.startswith("buf ")][:40]))
     for cid, g in gens.items():
         text = texts[cid]
         bid = "b" + cid[1:]
@@ -242,7 +327,10 @@ def main():
              "calls with ci=-1 and ci>=0, apply through returned indices, "
              "new_free, over 1..3 vnacal_new_t per vnacal_t (1 or 2 vnacal_t); "
              "every history is run twice (with / without the deletions of "
-             "handles in use); distinct = distinct (operation, model state "
+             "handles in use); plus scripts in which one unknown reflect "
+             "handle (over-determined) is solved by two vnacal_new_t / "
+             "re-solved on disjoint frequency grids with equal or different "
+             "point counts and evaluated after every solve; distinct = distinct (operation, model state "
              "shape) pairs with shape = (live calibrations, holes, live "
              "parameters/2, live vnacal_new_t)",
         min_events=16,
